@@ -115,10 +115,16 @@ class AthenaTrinoGenerator(TrinoGenerator):
         exp.LocationProperty: exp.Properties.Location.POST_WITH,
     }
 
+    # This class is not the generator of a Dialect, so the dialect metaclass never removes the JSON path
+    # parts Trino doesn't support from it; whether the copy below already lacks them depends on import order
     TRANSFORMS = {
-        **TrinoGenerator.TRANSFORMS,
-        exp.PartitionedByProperty: _partitioned_by_property_sql,
-        exp.LocationProperty: _location_property_sql,
+        k: v
+        for k, v in {
+            **TrinoGenerator.TRANSFORMS,
+            exp.PartitionedByProperty: _partitioned_by_property_sql,
+            exp.LocationProperty: _location_property_sql,
+        }.items()
+        if k not in generator.ALL_JSON_PATH_PARTS - TrinoGenerator.SUPPORTED_JSON_PATH_PARTS
     }
 
 
